@@ -30,6 +30,12 @@ type Cmd struct {
 	NonQuiet bool `json:"non_quiet,omitempty"`
 	// Port selects main (0) or batch (1) port for shapes that alternate.
 	Port int `json:"port,omitempty"`
+	// SameOpaque gives every key of a handler-level multi-get the same opaque (what the text
+	// parser produces: all zero), so duplicate keys are indistinguishable requests.
+	SameOpaque bool `json:"same_opaque,omitempty"`
+	// ConsumerPauseMs makes the in-process consumer of a handler-level get pause after the
+	// first response it receives (a slow client behind the orchestrator).
+	ConsumerPauseMs int `json:"consumer_pause_ms,omitempty"`
 }
 
 // Short renders a compact description.
